@@ -185,6 +185,15 @@ Definition bdiag (bs : list block) : mat R :=
   fun i j => if (i / 2 =? j / 2)%nat then bentry (nth (i / 2) bs idblock) (i mod 2) (j mod 2) else k0.
 
 Definition pinput := list (list jones).      (* per spatial mode: the photons' Jones vectors, in annotation order *)
+(* a photon as the BasicState carries it: its P annotation, or none.  convert_polarized_state reads
+   `annot.get("P", complex(Polarization(0)))`: a photon without P annotation (plain, or carrying other tags only)
+   gets theta = 0, phi = 0, i.e. the Jones vector (cos 0, e^{i0} sin 0) = (1, 0) = H, and then goes through the
+   same loop as every other photon *)
+Definition photon := option jones.
+Definition default_jones : jones := (k1, k0).
+Definition photon_jones (p : photon) : jones := match p with Some v => v | None => default_jones end.
+Definition ainput := list (list photon).
+Definition resolve_photons (inp : ainput) : pinput := map (map photon_jones) inp.
 Definition prep_states (inp : pinput) : list mprep := map mode_prep inp.
 Fixpoint first_err (sts : list mprep) : option nat :=
   match sts with [] => None | st :: r => match merr st with Some c => Some c | None => first_err r end end.
@@ -311,7 +320,7 @@ Arguments jones_label {_}. Arguments jones_standard {_}. Arguments jones_quarter
 Arguments sin_q {_}. Arguments ipow {_}.
 Arguments veqb {_}. Arguments inner {_}. Arguments mstep {_}. Arguments mode_prep {_}. Arguments mblock {_}. Arguments mblock_old {_}. Arguments prep_matrix {_}. Arguments impl_amp {_}. Arguments impl_amps {_}. Arguments psim0 {_}. Arguments OpSet {_}. Arguments OpQuery {_}. Arguments pstep {_}. Arguments prun {_}. Arguments pspec {_}. Arguments fresh_answer {_}. Arguments ps_upol {_}. Arguments ps_inner {_}. Arguments mkpsim {_}.
 Arguments mcounts {_}. Arguments merr {_}. Arguments bdiag {_}. Arguments bentry {_}. Arguments idblock {_}.
-Arguments prep_states {_}. Arguments first_err {_}. Arguments spatial_input {_}. Arguments prep_matrix_old {_}.
+Arguments prep_states {_}. Arguments photon_jones {_}. Arguments default_jones {_}. Arguments resolve_photons {_}. Arguments first_err {_}. Arguments spatial_input {_}. Arguments prep_matrix_old {_}.
 Arguments no_photon {_}. Arguments convert_old {_}. Arguments ConvErr {_}. Arguments ConvNoMatrix {_}. Arguments ConvOk {_}.
 Arguments impl_amp_old {_}. Arguments impl_amps_old {_}. Arguments permC {_}. Arguments jcol {_}. Arguments spec_cols {_}. Arguments spec_amp {_}.
 Arguments MP0 {_}. Arguments MP1 {_}. Arguments MP2 {_}. Arguments MErr {_}.
